@@ -1,6 +1,7 @@
 /-
   C17 — Verifier detects every divergence inside a verified range.
 -/
+import RaftWal.Proofs.VerifierDecide
 import RaftWal.Proofs.VerifierReach
 import RaftWal.Generated.Verifier
 import RaftWal.Generated.Consts
@@ -80,5 +81,12 @@ theorem bootstrap_entry_ignored (s : UInt64) (l : Log) (h : l.index = 1 ∧ l.ty
 /-- the running sum never covers a batch the store underneath refused: the code publishes it only after the store
     accepted the batch (fact), as `Node.storeLogs` does — so in-flight blame cannot stem from a rejected append -/
 theorem sum_never_covers_rejected_batch : Generated.verifierPublishesAfterStore = true := by decide
+
+/-- in-flight corruption is blamed exactly when the node's written sum is set and differs from the leader's — the condition
+    translated from `verify` on every run is the model's -/
+theorem inflight_blame_condition_from_source (r : Verifier.Report) :
+    (r.written ≠ 0 ∧ r.written ≠ r.expected) ↔
+      Generated.verifyBlamesInFlight r.written.toNat r.expected.toNat = true :=
+  Verifier.inflight_blame_eq_source r
 
 end RaftWal.C17
